@@ -106,6 +106,8 @@ func (c *Ctx) emitOp03(r opRun, m modeling.Mesh) {
 	case "weld":
 		c.Emit("c03.holds.weld_spec", r.args+" "+out, "true")
 	case "crop":
+		// the vertex-level contract (theorem crop_contract) holds whatever the incoming index buffer is
+		c.Emit("c03.holds.crop_contract", r.args+" "+out, "true")
 		if isIdentity(m) {
 			c.Emit("c03.holds.crop_spec", r.args+" "+out, "true")
 		} else {
@@ -198,6 +200,8 @@ func runC03(c *Ctx) {
 	for s := 0; s < c.N; s++ {
 		c.guardSeq("c03.holds.harness_ok", func() { c.seq03(all) })
 	}
+	// round 2: the operations of Model/MeshMore.lean and crop on non-identity clouds (c03_more.go)
+	c.moreOps(20+c.N/4, "c03.holds.harness_ok", c.emitMore03)
 }
 
 func (c *Ctx) seq03(all []string) {
